@@ -88,8 +88,8 @@ BudgetBaseKB == 8192            \* limits.StreamBudgetBase
 BudgetMult   == 1024            \* limits.StreamBudgetMultiplier (bytes per raw byte = KB per raw KB)
 BudgetCapKB  == 262144          \* limits.StreamBudgetHardCap
 SlackKB      == 6144            \* runtime, bufio and compressor state outside the budget
-TimeFloorUs  == 5000000         \* a
-TimeNsPerByte == 5000           \* b
+TimeFloorUs  == 15000000        \* a
+TimeNsPerByte == 1000           \* b (= microseconds per 1000 bytes; keeps the product inside 32 bit)
 
 Min(a, b) == IF a < b THEN a ELSE b
 \* KB of budget for rawLen bytes (rounded up)
